@@ -125,7 +125,7 @@ def run(ctx):
     TABLE = {
         'asefile::cel::CelsData::cel': dict(frame=[(2, ['frame'])], layer=[(2, ['layer'])], rows=1, cols=1),
         'asefile::cel::CelsData::cel_mut': dict(frame=[(2, ['frame'])], layer=[(2, ['layer'])], rows=1, cols=1),
-        'asefile::cel::CelsData::add_cel': dict(frame=[(2, [])], layer=[(3, ['data', 'layer_index'])], rows=1, cols=2),
+        'asefile::cel::CelsData::add_cel': dict(frame=[(2, [])], layer=[(3, ['data', 'layer_index'])], rows=1, cols=1),
         'asefile::cel::CelsData::frame_cels': dict(frame=[(2, [])], layer=[], rows=1, cols=0),
     }
 
